@@ -3,13 +3,13 @@
 # usage: adopt_seed.sh C03 A [check ids...]   (default: the property's own check)
 ID=$1; V=$2; shift 2
 CHECKS="${*:-$ID}"
-S=/tmp/seed/$ID/SEED/$V
+ROOT=${SEEDROOT:-/tmp/seed}; S=$ROOT/$ID/SEED/$V
 [ -f "$S/patch.diff" ] || { echo "no $S/patch.diff"; exit 2; }
-if ! grep -q "suite_ok_with_change" "$S/confirm.log" 2>/dev/null; then /verif/tools/confirm_seed.sh "$ID" "$V" >/dev/null; rm -rf /tmp/seed/$ID/target; fi
+if ! grep -q "suite_ok_with_change" "$S/confirm.log" 2>/dev/null; then /verif/tools/confirm_seed.sh "$ID" "$V" >/dev/null; rm -rf $ROOT/$ID/target; fi
 conf=$(tail -1 "$S/confirm.log")
 res=$(/verif/tools/try_seed.sh "$S" $CHECKS)
 echo "$res"
-DEST=/verif/seeded/$ID-$V
+DEST=/verif/seeded/$ID-${SEEDTAG:-}$V
 mkdir -p "$DEST"
 cp "$S/patch.diff" "$S/demo.rs" "$DEST/"
 cp "$S/notes.md" "$DEST/agent-notes.md" 2>/dev/null
